@@ -1,6 +1,7 @@
 import Frp.Engines.Router
 import Frp.Engines.HttpAuth
 import Frp.Engines.Ports
+import Frp.Engines.Release
 import Frp.Engines.Udp
 import Frp.Engines.Conf
 import Frp.Engines.Nat
@@ -15,6 +16,7 @@ def all : List (String × Engine) :=
   [ ("router", router)
   , ("httpauth", httpauth)
   , ("ports", ports)
+  , ("release", release)
   , ("udp", udp)
   , ("conf", conf)
   , ("nat", nat)
